@@ -477,13 +477,40 @@ impl<'tcx> Cx<'tcx> {
         let tcx = self.tcx;
         let kind = tcx.def_kind(did);
         let body = if matches!(kind, DefKind::Const { .. } | DefKind::AssocConst { .. }) { tcx.mir_for_ctfe(did) } else { tcx.optimized_mir(did) };
+        self.body_inner(did, body, None)
+    }
+
+    /// the promoted constants of a function (`&(MIN..=MAX)`, `&[]`): small MIR bodies of their own
+    fn promoted_bodies(&mut self, did: DefId) -> Vec<J> {
+        let tcx = self.tcx;
+        let mut out = vec![];
+        if !matches!(tcx.def_kind(did), DefKind::Fn | DefKind::AssocFn | DefKind::Closure) {
+            return out;
+        }
+        let proms = tcx.promoted_mir(did);
+        for (i, b) in proms.iter_enumerated() {
+            let r = std::panic::catch_unwind(std::panic::AssertUnwindSafe(|| self.body_inner(did, b, Some(i.as_usize()))));
+            if let Ok(j) = r {
+                out.push(j);
+            }
+        }
+        out
+    }
+
+    fn body_inner(&mut self, did: DefId, body: &mir::Body<'tcx>, promoted: Option<usize>) -> J {
+        let tcx = self.tcx;
+        let kind = tcx.def_kind(did);
         let mut o: Vec<(&'static str, J)> = vec![
-            ("path", s(self.path(did))),
-            ("hash", s(self.hash(did))),
-            ("kind", s(format!("{:?}", kind))),
+            ("path", s(match promoted { Some(i) => format!("{}::promoted[{}]", self.path(did), i), None => self.path(did) })),
+            ("hash", s(match promoted { Some(i) => format!("{}p{}", self.hash(did), i), None => self.hash(did) })),
+            ("kind", s(match promoted { Some(_) => "Promoted".to_string(), None => format!("{:?}", kind) })),
             ("span", s(self.span(tcx.def_span(did)))),
             ("argc", J::N(body.arg_count as i128)),
         ];
+        if promoted.is_some() {
+            o.push(("root", s(self.path(did))));
+        }
+        let kind = if promoted.is_some() { DefKind::Mod } else { kind };   // (none of the per-item header fields below apply to a promoted body)
         if matches!(kind, DefKind::Fn | DefKind::AssocFn) {
             o.push(("pub", J::B(tcx.visibility(did).is_public())));
             o.push(("name", s(tcx.item_name(did).to_string())));
@@ -711,15 +738,20 @@ fn emit<'tcx>(tcx: TyCtxt<'tcx>, outdir: &str) {
     let crate_name = tcx.crate_name(LOCAL_CRATE).to_string();
     let mut bodies = vec![];
     let mut const_bodies = vec![];
+    let mut promoted_bodies = vec![];
     for ldid in tcx.hir_body_owners() {
         let did = ldid.to_def_id();
         match tcx.def_kind(did) {
-            DefKind::Fn | DefKind::AssocFn | DefKind::Closure => bodies.push(cx.body(did)),
+            DefKind::Fn | DefKind::AssocFn | DefKind::Closure => {
+                bodies.push(cx.body(did));
+                promoted_bodies.extend(cx.promoted_bodies(did));
+            }
             // bodies of generic associated constants (e.g. `const CHANNELS: usize = N`) cannot be evaluated: keep their MIR
-            DefKind::AssocConst { .. } => {
-                let g = tcx.generics_of(did);
-                if g.count() != 0 || g.parent_count != 0 {
-                    const_bodies.push(cx.body(did));
+            // (and those of the other constants: an aggregate constant such as `Buffer::SILENT` has no scalar value to report)
+            DefKind::AssocConst { .. } | DefKind::Const { .. } => {
+                let r = std::panic::catch_unwind(std::panic::AssertUnwindSafe(|| cx.body(did)));
+                if let Ok(b) = r {
+                    const_bodies.push(b);
                 }
             }
             _ => {}
@@ -860,6 +892,7 @@ fn emit<'tcx>(tcx: TyCtxt<'tcx>, outdir: &str) {
         ("fns", J::A(fns_nobody)),
         ("bodies", J::A(bodies)),
         ("const_bodies", J::A(const_bodies)),
+        ("promoted_bodies", J::A(promoted_bodies)),
         ("extern_bodies", J::A(extern_bodies)),
         ("types", J::M(types)),
     ]);
